@@ -282,8 +282,20 @@ func c10Random(c *fw.Ctx, r *rand.Rand, id string) {
 	body := c10Bodies[bk]
 	c.Case(id, "future "+body, func() {
 		w := c10NewWorld()
-		if o := hx.EvalText(context.Background(), "(def f (future "+body+"))", w.env); o.Err != nil || o.Panicked {
+		creatorCtx := context.Background()
+		var endCreator context.CancelFunc
+		if (bk == "const" || bk == "short" || bk == "throws") && r.Intn(2) == 0 {
+			// the evaluation that creates the future runs under its own context (a per-request context), which the host
+			// ends once the future has completed: a completed future's status has nothing to do with that
+			creatorCtx, endCreator = context.WithTimeout(context.Background(), time.Minute)
+		}
+		if o := hx.EvalText(creatorCtx, "(def f (future "+body+"))", w.env); o.Err != nil || o.Panicked {
 			panic(fmt.Sprint(o.Err, o.PanicMsg))
+		}
+		if endCreator != nil {
+			hx.EvalText(context.Background(), "(try @f (catch e :thrown))", w.env)
+			endCreator()
+			c.Count("futures_whose_creating_context_ended_after_completion", 1)
 		}
 		created := w.now()
 		nObs := 2 + r.Intn(7)
@@ -626,6 +638,30 @@ func c10Parked(c *fw.Ctx, id string, scenario string) {
 	})
 }
 
+// c10Chain: a chain of futures each of which derefs the next one it started: every body runs exactly once and the
+// outermost deref returns, however many futures are running at the same time.
+func c10Chain(c *fw.Ctx, id string, depth int) {
+	c.Case(id, fmt.Sprintf("chain of %d nested futures", depth), func() {
+		w := c10NewWorld()
+		src := fmt.Sprintf("(do (def runs (atom 0)) (def chain (fn (n) (do (swap! runs inc) (if (< n 1) 0 (+ 1 @(future (chain (- n 1)))))))) (list (chain %d) @runs))", depth)
+		var o hx.Outcome
+		ctx, cancel := context.WithTimeout(context.Background(), 120*time.Second)
+		defer cancel()
+		ok := fw.WithTimeout(150*time.Second, func() { o = hx.EvalText(ctx, src, w.env) })
+		c.Count("future_chains", 1)
+		c.Max("max_future_chain_depth", int64(depth))
+		if !ok {
+			c.Violate(fw.Violation{Key: "R7:blocked-chain", What: "a chain of nested futures did not finish within 150 s", Detail: fw.GoroutineDump()})
+			c.Runaway()
+			return
+		}
+		want := canon.Li(canon.In(depth), canon.In(depth+1))
+		if o.Panicked || o.Err != nil || !canon.Equal(canon.FromGo(o.Val), want) {
+			c.Violate(fw.Violation{Key: "R1:chain", What: fmt.Sprintf("a chain of %d futures, each dereferencing the next, must give %s (depth, body runs); got %v err %v %s", depth, canon.Render(want), o.Val, o.Err, o.PanicMsg)})
+		}
+	})
+}
+
 func runC10(c *fw.Ctx) {
 	h := installHooks(uint64(c.Seed)*7919 + uint64(c.Shard))
 	h.jitter.Store(true)
@@ -637,6 +673,11 @@ func runC10(c *fw.Ctx) {
 	for i := 0; i < c.PerShard(c.Pick(336, 8000)); i++ {
 		c10Parked(c, fmt.Sprintf("parked-%d", i), scen[(i*c.NShards+c.Shard)%len(scen)])
 	}
+	h.jitter.Store(false)
+	for i := 0; i < c.PerShard(c.Pick(32, 320)); i++ {
+		c10Chain(c, fmt.Sprintf("chain-%d", i), []int{10, 150, 400, 1000}[(i+c.Shard)%4])
+	}
+	h.jitter.Store(true)
 	for k, v := range h.hitCounts() {
 		c.Count("hook_hits."+k, int(v))
 	}
